@@ -3,7 +3,7 @@
 # `make -C /verif <targets>` first, so edits under /repo are always picked up
 # (dependency tracking through -MMD).
 REPO   ?= /repo
-B      := /verif/.build
+B      ?= /verif/.build
 CFG    := $(B)/cfg
 CC     := clang
 CXX    := clang++
